@@ -168,6 +168,37 @@ func TestC07_Concurrent(t *testing.T) {
 		ne := rapid.IntRange(1, 4).Draw(t, "nexprs")
 		cfg := gen.ExprCfg{MaxDepth: 2, MaxSteps: 4, Funcs: true, Let: true, Arith: true, Compare: true}
 		scratch := false
+		// rarely: large arrays (beyond the sizes at which buffers are pooled or
+		// algorithms switch) sorted, grouped and searched by many goroutines,
+		// next to calls of the same functions that fail half way
+		if rapid.IntRange(0, 119).Draw(t, "largecase") == 0 {
+			n := gen.Pick(t, "largelen", []int{1024, 1500, 3000, 4097})
+			good := make([]jv.Val, n)
+			bad := make([]jv.Val, n)
+			strs := make([]jv.Val, n)
+			for i := range good {
+				k := jv.VInt(int64((i * 7919) % n))
+				good[i] = jv.VObj([]jv.Member{{K: "k", V: k}, {K: "i", V: jv.VInt(int64(i))}})
+				bad[i] = good[i]
+				strs[i] = jv.VObj([]jv.Member{{K: "k", V: jv.VStr(strconv.Itoa((i * 31) % n))}, {K: "i", V: jv.VInt(int64(i))}})
+			}
+			at := rapid.IntRange(1, n-1).Draw(t, "badat")
+			bad[at] = jv.VObj([]jv.Member{{K: "k", V: jv.VStr("x")}, {K: "i", V: jv.VInt(int64(at))}})
+			big := jv.VObj([]jv.Member{{K: "good", V: jv.VArr(good)}, {K: "bad", V: jv.VArr(bad)}, {K: "strs", V: jv.VArr(strs)}})
+			vals = []jv.Val{big}
+			nd = 1
+			sc.Docs = []run.Node{run.FromVal(big)}
+			pool := []string{"sort_by(bad, &k)", "sort_by(good, &k)[*].i", "sort_by(strs, &k)[*].i", "sort(good[*].k)", "sort(bad[*].k)", "max_by(good, &k).i", "min_by(bad, &k)", "group_by(good, &to_string(k))", "reverse(good)[0]",
+				"sort_by(good, &k)[0]", "sort_by(good, &i)[-1]", "good[?k > `10`] | length(@)", "map(&k, bad) | sort(@)", "zip(good, strs)[-1]", "join(',', strs[*].k) | length(@)", "sum(good[*].k)", "avg(bad[*].k)", "good[::-1][0]", "good[*].k | [0]"}
+			ne = rapid.IntRange(2, 4).Draw(t, "nlarge")
+			for i := 0; i < ne; i++ {
+				sc.Exprs = append(sc.Exprs, gen.Pick(t, "largeexpr", pool))
+				sc.Loose = append(sc.Loose, false)
+				sc.Multi = append(sc.Multi, []bool{false})
+			}
+			scratch = true
+			ne = 0
+		}
 		for i := 0; i < ne; i++ {
 			g := &gen.G{T: t, Root: vals[0], Cfg: cfg}
 			var e ast.Expr
@@ -249,6 +280,10 @@ func TestC07_Concurrent(t *testing.T) {
 		}
 		ng := rapid.IntRange(4, 16).Draw(t, "goroutines")
 		nops := rapid.IntRange(10, 60).Draw(t, "ops")
+		if ne == 0 {
+			ne = len(sc.Exprs)
+			nops = rapid.IntRange(4, 12).Draw(t, "largeops")
+		}
 		shared := false
 		for g := 0; g < ng; g++ {
 			ops := make([]c07Op, nops)
